@@ -657,6 +657,8 @@ def method(ex, e, st):
         out = Seq("list", base.elem, base.arr, base.n, base.start, base.delta)
         if getattr(base, "maxlen", None) is not None:
             out.maxlen = base.maxlen
+        if getattr(base, "where_of", None) is not None:
+            out.where_of = base.where_of
         return out
     from pyvc.sym import LazySeq, MatLazy
     if attr == "astype" and isinstance(base, (LazySeq, MatLazy, Mat)):
